@@ -202,12 +202,22 @@ def specOp (s0 : SpecSt) (op ans : List String) : SpecSt × String :=
   | "rmclientc" :: c :: _ => ({ s with ruled := false }, rmclientVerdict c line)
   | "upd" :: rest =>
     let key := s!"{kv rest "svc"}@{kv rest "ip"}:{kv rest "port"}"
-    let http := kv rest "eph" != "0" && kv rest "grpc" != "1" && (kv rest "fc" == "0" || kv rest "fc" == "")
-    let plain := (kv rest "tag" == "-" || kv rest "tag" == "") && kv rest "sync" != "1"
+    -- `tag=none` is what the beat handler sends (PUT /instance/beat: an update tag with nothing set): a heartbeat
+    -- for a registered instance refreshes it and leaves what it is (persistent or ephemeral) alone
+    let beat := kv rest "tag" == "none"
+    let plain := (kv rest "tag" == "-" || kv rest "tag" == "" || beat) && kv rest "sync" != "1"
     let old := s.tracked.find? (·.key == key)
-    let cand := kv rest "eph" != "0" && kv rest "grpc" != "1" && !(kv rest "fc" == "0" || kv rest "fc" == "")
+    let http0 := kv rest "eph" != "0" && kv rest "grpc" != "1" && (kv rest "fc" == "0" || kv rest "fc" == "")
+    let cand0 := kv rest "eph" != "0" && kv rest "grpc" != "1" && !(kv rest "fc" == "0" || kv rest "fc" == "")
+    let http := match old with | some o => if beat then o.http else http0 | none => http0
+    let cand := match old with | some o => if beat then o.cand else cand0 | none => cand0
+    -- a heartbeat that says the opposite of what the instance is, after a silence long enough for the instance to have
+    -- been expired: whether it refreshes the old registration or creates a new one is not determined by this trace
+    let ambiguous := match old with
+      | some o => beat && (o.http != http0) && now - o.lastBeat ≥ 33000
+      | none => false
     let t : Tracked := ⟨key, now, http, cand, (match old with | some o => o.healthyReg && kv rest "healthy" != "0" | none => kv rest "healthy" != "0"), 0⟩
-    ({ s with tracked := t :: s.tracked.filter (·.key != key), ruled := s.ruled && plain }, "-")
+    ({ s with tracked := t :: s.tracked.filter (·.key != key), ruled := s.ruled && plain && !ambiguous }, "-")
   | "timecheck" :: _ =>
     ({ s with tracked := s.tracked.map fun t =>
         if now - t.lastBeat ≥ 33000 then { t with checksPastTi := t.checksPastTi + 1 } else t }, "-")
